@@ -148,7 +148,7 @@ CHECKS = {
              "the body: nothing supplied can add, split, truncate or terminate a field), names_stay_unique, mailbox_header_wf (the same well-formedness "
              "for From / Sender / To / Cc / Bcc / Reply-To under every display name: a model of Mailbox(es)::encode with quoted_string::encode's four "
              "strategies and the repaired write_unbreakable, Model/MailboxEnc.lean, compared octet for octet with the code), content_disposition_wf "
-             "(the same for Content-Disposition under every file name, Model/Rfc2231Enc.lean), text_value_folded (every line of a text header whose value is any number of visible-ASCII words of 1..75 octets separated by single spaces is within 78 octets: Proofs/TextFold.lean), address_list_folded (every line of a header with any number of bare addresses is within 78 "
+             "(the same for Content-Disposition under every file name, Model/Rfc2231Enc.lean), text_value_folded (every line of a text header whose value is any number of visible-ASCII words of 1..77 octets separated by single spaces is within 78 octets: Proofs/TextFold.lean) and text_value_within_998 (words of up to 900 octets: every line within 998; for any limit >= 78, words shorter than the limit give lines within it), address_list_folded (every line of a header with any number of bare addresses is within 78 "
              "octets: the repaired folding, proved). The other line-length bounds (78 / 998) "
              "are checked on real outputs only (four narrow known findings). Correspondence: names of every length x adversarial texts "
              "(all alignments of 1-4 byte characters, CR/LF/NUL/controls, up to 64 KiB), all ASCII names up to length 2, random "
